@@ -294,7 +294,10 @@ class BaseClientHandler:
             )
             if self.server and imap_command.command:
                 self.server.num_failed_commands[imap_command.command] += 1
-            result = f"{imap_command.tag} BAD Command timed out: '{imap_command.qstr()}'"
+            result = (
+                f"{imap_command.tag} BAD Command timed out: "
+                f"'{imap_command.qstr()}'\r\n"
+            )
             try:
                 await self.client.push(result)
             except Exception:
@@ -324,9 +327,9 @@ class BaseClientHandler:
 
             if self.server and imap_command.command:
                 self.server.num_failed_commands[imap_command.command] += 1
-            result = f"{imap_command.tag} BAD Unhandled exception: {e}"
+            result = f"{imap_command.tag} BAD Unhandled exception: {e}\r\n"
             try:
-                await self.client.push(result.strip())
+                await self.client.push(result)
             except Exception:
                 pass
             raise
